@@ -27,6 +27,9 @@ type c15In struct {
 	// MoreKDF: further AT_KDF attributes of a ref-built packet (RFC 5448 3.2: a Challenge lists several KDF offers, one
 	// AT_KDF each, in preference order), appended to EAP.Attrs before Order is applied
 	MoreKDF []model.Bytes `json:"more_kdf,omitempty"`
+	// Generic: further attributes of a ref-built packet whose types the library has no special case for (value = the 4L-2 octets
+	// behind the length octet); several large ones make the packet exceed one 4096-octet buffer fill of a buffered reader
+	Generic []model.AkaAttr `json:"generic_attributes,omitempty"`
 	// EAPLib: reserved octets chosen by the independent encoder (zero unless LibReserved)
 	AllOctets bool `json:"every_single_octet_change"`
 }
@@ -75,6 +78,16 @@ func receiverVerdict(w, key []byte) (carried, computed []byte, err error) {
 	again, err2 := libCalc(r, key)
 	if err2 != nil || !bytes.Equal(again, computed) {
 		return carried, computed, fmt.Errorf("two computations of AT_MAC on the same decoded packet with the same key differ: %x vs %x (%v)", computed, again, err2)
+	}
+	// a setter call that is REFUSED leaves the packet what it was - the packet as received
+	if serr := probe.Try(func() error { return ak.SetAttr(eap.AT_RES, []byte{1, 2}) }); serr == nil {
+		return carried, computed, fmt.Errorf("SetAttr(AT_RES, 2 octets) was not refused")
+	} else if probe.IsPanic(serr) {
+		return carried, computed, serr
+	}
+	again, err2 = libCalc(r, key)
+	if err2 != nil || !bytes.Equal(again, computed) {
+		return carried, computed, fmt.Errorf("after a REFUSED SetAttr the receiver computes a different AT_MAC for the same decoded packet and key: %x vs %x (%v)", computed, again, err2)
 	}
 	return
 }
@@ -151,12 +164,16 @@ func c15Oracle(in c15In) probe.Outcome {
 		if len(in.MoreKDF) > 0 {
 			labels = append(labels, "repeated-AT_KDF")
 		}
+		if len(in.Generic) > 0 {
+			e.Attrs = append(append([]model.AkaAttr(nil), e.Attrs...), in.Generic...)
+			labels = append(labels, "generic-attributes")
+		}
 		order := in.Order
 		if len(order) != len(e.Attrs) {
 			order = nil
 		}
 		var err error
-		if w, err = ref.EncodeEAP(e, order); err != nil {
+		if w, err = ref.EncodeEAPGeneric(e, order); err != nil {
 			return probe.Fail("HARNESS: reference EAP encoder: %v", err)
 		}
 		if mac, err = refMAC(in.Key, w); err != nil {
@@ -229,6 +246,9 @@ func c15Oracle(in c15In) probe.Outcome {
 	if !in.AllOctets && len(w) > 120 {
 		step = 3
 	}
+	if len(w) > 600 {
+		step = len(w)/200 + 1 // large packets: about 200 positions spread over the packet (the first octets of every region included)
+	}
 	decoded := 0
 	for i := 0; i < len(w); i += step {
 		x := append([]byte(nil), w...)
@@ -291,6 +311,29 @@ func c15Gen(t *rapid.T) c15In {
 		}
 		if !has {
 			n++
+		}
+		if g := rapid.IntRange(0, 15).Draw(t, "generic") - 8; g >= 5 {
+			// attribute types of RFC 4187 / 5448 that the library does not model (and a few unassigned skippable ones)
+			k := rapid.IntRange(1, 3).Draw(t, "ngeneric")
+			if g == 7 {
+				k = rapid.IntRange(5, 8).Draw(t, "ngeneric-big") // 5..9 attributes of ~1 KiB: the packet exceeds 4096 octets
+			}
+			for i := 0; i < k; i++ {
+				ty := rapid.SampledFrom([]uint8{5, 6, 7, 10, 12, 13, 14, 15, 129, 130, 132, 133, 135, 136, 137, 200, 255}).Draw(t, "gtype")
+				words := rapid.SampledFrom([]int{1, 2, 5, 64, 255}).Draw(t, "gwords")
+				if g == 7 {
+					words = rapid.IntRange(200, 255).Draw(t, "gwords-big")
+				}
+				dup := false
+				for _, x := range in.Generic {
+					dup = dup || x.Type == ty
+				}
+				if dup {
+					continue
+				}
+				in.Generic = append(in.Generic, model.AkaAttr{Type: ty, Value: gen.Fill(t, "gvalue", 4*words-2)})
+				n++
+			}
 		}
 		if rapid.IntRange(0, 3).Draw(t, "more-kdf") == 3 {
 			for i := rapid.IntRange(1, 3).Draw(t, "nkdf"); i > 0; i-- {
